@@ -19,6 +19,7 @@ package state
 
 // Add rejects malformed (shorter than two bytes) keys without touching the map, otherwise ORs the permission in.
 //@ func Keys.Add props C05 C40
+//@   requires !isnil(k)
 //@   modifies k[]
 //@   ensures result == (len(key) >= 2)
 //@   ensures !result ==> k == old(k)
